@@ -1,6 +1,7 @@
 package main
 
 import (
+	"bytes"
 	"encoding/binary"
 	"fmt"
 	"os"
@@ -629,6 +630,19 @@ func (g *gen) genTWKB(corpus []corpusEntry, n int) {
 			g.add("deepnest", f, append(append([]byte(nil), b...), 0x01, 0x00, 0x02, 0x04))
 		}
 		g.add("deepnest", f, b)
+	}
+	// self-similar runs: k copies of one collection-header byte (0x07 read as type+precision, as metadata
+	// bbox|size|ids, as a size of 7 and as a count of 7, depending on where a parser stands) followed by a run of
+	// bytes that read as small leaves (0x11: an empty Point with the bbox flag).  Whatever a decoder makes of
+	// such a document, the result (and the work) must stay in proportion to its length: a parser that lets a
+	// member's DECLARED size decide where the next member starts decodes the same bytes over and over.
+	for _, k := range []int{8, 30, 60, 120, 150} {
+		for _, hdr := range []byte{0x07, 0x17, 0x06, 0x05} {
+			for _, leaf := range []byte{0x11, 0x01, 0x10} {
+				b := append(bytes.Repeat([]byte{hdr}, k), bytes.Repeat([]byte{leaf}, 600)...)
+				g.add("selfsimilar", f, b)
+			}
+		}
 	}
 	// amplification: one byte per ring / two per point
 	{
